@@ -1112,6 +1112,37 @@ class Interp:
             return self.subscript(e, env, mod)
         if isinstance(e, ast.Call):
             return self.callexpr(e, env, mod)
+        if isinstance(e, (ast.ListComp, ast.GeneratorExp, ast.SetComp, ast.DictComp)) and len(e.generators) == 1:
+            # comprehension over a concrete sequence (conditions decided concretely): unrolled
+            g = e.generators[0]
+            itv0 = self.expr(g.iter, env, mod)
+            if isinstance(itv0, Obj):
+                itv0 = self.iterate_obj(itv0, e)
+            gen0 = self._generic_iter(itv0, e)
+            if isinstance(gen0, list):
+                sub = dict(env)
+                out, ok_ = [], True
+                for v in gen0:
+                    self.store(g.target, v, sub, mod)
+                    keep_ = True
+                    for c_ in g.ifs:
+                        t_ = self._truth(self.expr(c_, sub, mod))
+                        if t_ is None:
+                            ok_ = False
+                            break
+                        keep_ = keep_ and t_
+                    if not ok_:
+                        break
+                    if keep_:
+                        out.append((self.expr(e.key, sub, mod), self.expr(e.value, sub, mod)) if isinstance(e, ast.DictComp) else self.expr(e.elt, sub, mod))
+                if ok_:
+                    if isinstance(e, ast.DictComp):
+                        if all(isinstance(k_, (str, int)) for k_, _ in out):
+                            return dict(out)
+                        return Unk('dict comprehension with symbolic keys', e)
+                    return out
+            if not isinstance(e, ast.ListComp) or g.ifs:
+                return Unk('comprehension over %s' % up(g.iter)[:50], e)
         if isinstance(e, ast.ListComp) and len(e.generators) == 1 and not e.generators[0].ifs:
             g = e.generators[0]
             itv = self.expr(g.iter, env, mod)
@@ -1221,6 +1252,8 @@ class Interp:
     def _as_arr(self, v):
         if isinstance(v, Arr):
             return v
+        if isinstance(v, Foreign) and hasattr(v, 'as_value'):
+            return self._as_arr(v.as_value())          # a table column used as an array
         if isinstance(v, bool):
             return Arr((), num(1 if v else 0))
         if isinstance(v, (int, float, Fraction)):
@@ -2107,7 +2140,26 @@ class Interp:
                 x = self._as_arr(args[0])
                 return x.with_(poly=alg.mk_fn('abs', P(x.poly))) if isinstance(x, Arr) else x
             if last in ('list', 'tuple'):
-                return args[0] if args else []
+                if args and isinstance(args[0], dict):
+                    return list(args[0])
+                if args and isinstance(args[0], (list, tuple)):
+                    return list(args[0]) if last == 'list' else tuple(args[0])
+                return args[0] if args else ([] if last == 'list' else ())
+            if last == 'dict':
+                d_ = {}
+                if args:
+                    if isinstance(args[0], dict):
+                        d_.update(args[0])
+                    elif isinstance(args[0], (list, tuple)) and all(isinstance(p_, (list, tuple)) and len(p_) == 2 and isinstance(p_[0], (str, int)) for p_ in args[0]):
+                        d_.update({p_[0]: p_[1] for p_ in args[0]})
+                    else:
+                        return Unk('dict(%r)' % (args[0],), e)
+                d_.update(kw)
+                return d_
+            if last == 'sorted' and args and isinstance(args[0], (list, tuple, dict)) and not kw and all(isinstance(x_, (str, int, float)) for x_ in args[0]):
+                return sorted(args[0])
+            if last == 'reversed' and args and isinstance(args[0], (list, tuple)):
+                return list(reversed(args[0]))
             return Unk('builtin %s' % last, e)
         if name.startswith('astropy.units'):
             if last == 'Quantity' and args:
